@@ -1573,7 +1573,7 @@ where
             DataLayout::Linear(order) => DataLayout::Linear(
                 self.access
                     .dimension_mapping
-                    .map_linear_data_layout_to_transposed(&order),
+                    .map_linear_data_layout_to_transposed(&self.access.source.view_shape(), &order),
             ),
             _ => data_layout,
         }
